@@ -4,20 +4,27 @@ go 1.26.8
 
 require (
 	github.com/emersion/go-message v0.18.2
+	github.com/emersion/go-msgauth v0.6.8
+	github.com/emersion/go-sasl v0.0.0-20241020182733-b788ff22d5a6
 	github.com/emersion/go-smtp v0.21.3
+	github.com/foxcpp/go-mockdns v1.1.0
+	github.com/foxcpp/go-mtasts v0.0.0-20240130093538-1438da2e5932
 	github.com/foxcpp/maddy v0.0.0
+	github.com/miekg/dns v1.1.63
+	golang.org/x/crypto v0.32.0
+	golang.org/x/net v0.34.0
+	golang.org/x/text v0.21.0
 )
 
 require (
+	blitiri.com.ar/go/spf v1.5.1 // indirect
 	github.com/beorn7/perks v1.0.1 // indirect
 	github.com/c0va23/go-proxyprotocol v0.9.1 // indirect
 	github.com/cespare/xxhash/v2 v2.3.0 // indirect
 	github.com/emersion/go-imap v1.2.2-0.20220928192137-6fac715be9cf // indirect
-	github.com/emersion/go-msgauth v0.6.8 // indirect
-	github.com/emersion/go-sasl v0.0.0-20241020182733-b788ff22d5a6 // indirect
-	github.com/foxcpp/go-mtasts v0.0.0-20240130093538-1438da2e5932 // indirect
 	github.com/google/uuid v1.6.0 // indirect
-	github.com/miekg/dns v1.1.63 // indirect
+	github.com/lib/pq v1.10.9 // indirect
+	github.com/mattn/go-sqlite3 v1.14.24 // indirect
 	github.com/munnerz/goautoneg v0.0.0-20191010083416-a7dc8b61c822 // indirect
 	github.com/prometheus/client_golang v1.20.5 // indirect
 	github.com/prometheus/client_model v0.6.1 // indirect
@@ -25,10 +32,8 @@ require (
 	github.com/prometheus/procfs v0.15.1 // indirect
 	go.uber.org/multierr v1.11.0 // indirect
 	go.uber.org/zap v1.27.0 // indirect
-	golang.org/x/net v0.34.0 // indirect
 	golang.org/x/sync v0.10.0 // indirect
 	golang.org/x/sys v0.29.0 // indirect
-	golang.org/x/text v0.21.0 // indirect
 	google.golang.org/protobuf v1.36.4 // indirect
 )
 
